@@ -171,6 +171,13 @@ def _deadline_loop(cfg, twin, limit, tab, clock, elapsed, t0, model_starts, info
                     if not tab.premature or tab.valid is not None or tab.invalid is not None:
                         raise V('timeout', 'verdict', 'timed out after %d of %d steps but premature=%r valid=%r invalid=%r' % (
                             len(tab.history), n, tab.premature, tab.valid, tab.invalid))
+                elif not (cfg.opts.get('is_build_models') and twin.outcome in ('refuted', 'open-flagged')):
+                    # every step was recorded and there are no models to generate: the deadline
+                    # surfaced at the final, empty step() call -- still a tableau stopped by its limit
+                    info['where'] = 'final-step'
+                    if not tab.premature or tab.valid is not None or tab.invalid is not None:
+                        raise V('timeout', 'verdict', 'timed out at the final step() call (no model generation) but premature=%r valid=%r invalid=%r' % (
+                            tab.premature, tab.valid, tab.invalid))
                 else:
                     info['where'] = 'models'
                     tv = dict(valid=True, refuted=False).get(twin.outcome)
